@@ -57,6 +57,23 @@ def run():
         if body != want:
             ck.reject(f"C03:repl:{ls[1 if ls[0] == 'multi' else 0][:12]}", f"typed into the REPL as {ls!r} the session prints {body!r}; evaluated in one scope the inputs give {want!r}",
                       {"lines": ls, "observed": body, "expected": want})
+    # iterator bodies are scopes too: every `next` runs the body in the frame made by `new` / the latest `recur`; a function written in the body
+    # keeps THAT frame (later frames are new ones), and what the body assigns is gone with its frame.  Expected values follow the statement.
+    iter_scopes = [
+        ("<{|i| yield {|| i} if i < 3; recur(i+1)}>.new(0).A@{|f| f()}", "val:[0, 1, 2]"),
+        ("it := <{|i| yield {|| i} if i < 3; recur(i+1)}>.new(0); f := it.next; g := it.next; [f(), g(), f()]", "val:[0, 1, 0]"),
+        ("x := 10; it := <{|i| yield [i, x] if i < 3; x := i + 100; recur(i+1)}>.new(0); [it.next, it.next, it.next, x]", "val:[[0, 10], [1, 10], [2, 10], 10]"),
+        ("it := <{|i| yield m{|k| i * k} if i < 3; recur(i+1)}>.new(1); o1 := {m: it.next}; o2 := {m: it.next}; [o1.m(10), o2.m(10), o1.m(1)]", "val:[10, 20, 1]"),
+        ("gen := <{|i, acc: 0| yield {|| [i, acc]} if i < 3; recur(i+1, acc: acc + i)}>; a := gen.new(0); fs := [a.next, a.next, a.next]; fs@{|f| f()}", "val:[[0, 0], [1, 0], [2, 1]]"),
+        ("it := <{|i| j := i * 2; yield {|| j} if i < 3; recur(i+1)}>.new(0); [it.next, it.next]@{|f| f()}", "val:[0, 2]"),
+        ("fs := <{|i| yield {|| i} if i < 4; recur(i+1)}>.new(1)@{|f| f}; fs@{|f| f()}", "val:[1, 2, 3]"),
+        ("it := <{|i| yield {|d| i := i + d; i} if i < 9; recur(i+1)}>.new(0); f := it.next; [f(5), f(5), it.next()(0)]", "val:[5, 5, 1]"),
+    ]
+    iout = run_cases([{"id": f"s{k}", "src": src} for k, (src, _) in enumerate(iter_scopes)], label="C03 iterator bodies")
+    for k, (src, want) in enumerate(iter_scopes):
+        if iout[f"s{k}"]["end"] != want:
+            ck.reject("C03:iterator-body-scope", f"{src!r} gives {iout[f's{k}']['end']}, expected {want}", {"src": src, "observed": iout[f"s{k}"]["end"], "expected": want})
+    ck.cov["iterator_body_scope_programs"] = len(iter_scopes)
     ck.cov["repl_sessions"] = nrepl
     ck.assumptions = ["probe(k)/say(x) are harness built-ins injected into the global scope; they receive the caller's environment",
                       "programs outside the PanEval fragment (status unsupported) are discarded, not judged"]
